@@ -54,11 +54,11 @@ func TestC19(t *testing.T) {
 		Oracle: OracleC19})
 }
 
-var knobsHealth = Knobs{MinInst: 1, MaxInst: 3, LatFrac: 0.2, WatchDelayH: 0.5, Health: true, Stops: true, Promote: true, LongH: true, MinHorizonH: 30, MaxHorizonH: 70}
+var knobsHealth = Knobs{MinInst: 1, MaxInst: 3, LatFrac: 0.2, WatchDelayH: 0.5, Health: true, Stops: true, Promote: true, LongH: true, Conn: true, MinHorizonH: 30, MaxHorizonH: 70}
 
 func TestC12(t *testing.T) {
 	RunCheck(t, CheckSpec{Prop: "C12",
-		Rule: "1-3 instances with a scripted health checker (healthy / unhealthy / slow-then-healthy / slow-then-unhealthy = blocks until the supplied context is done), thresholds MaxConsecutiveFailures in {0(->3),1,2,3,5, 2^31, 2^32+1}, heartbeat intervals 100ms..3s (the heartbeat time-out switches from 1s to H/2 above 2s), scripts that over-weight runs of threshold-1, threshold, threshold+1 unhealthy results, runs of 30-70 H so that an instance leads several terms (re-acquires after its record lapses), occasional stops/restarts, in a third of the plans isolated transient failures of 1-6 of the instance's first 25 refreshes; oracle: a reference consecutive-failure counter per term fed with the checker's own call log decides on which tick the health mechanism must demote (exactly at the threshold, never below, reset by a healthy result and by a new term), plus ctx deadline <= 100ms, no refresh on unhealthy ticks, OnDemote, FOLLOWER afterwards and re-election of a sole candidate within 600ms + latencies of the record's lapse. Non-trivial = a script with >= 1 unhealthy result reached a leader; distinct by plan hash.",
+		Rule: "1-3 instances with a scripted health checker (healthy / unhealthy / slow-then-healthy / slow-then-unhealthy = blocks until the supplied context is done), thresholds MaxConsecutiveFailures in {0(->3),1,2,3,5, 2^31, 2^32+1}, heartbeat intervals 100ms..3s (the heartbeat time-out switches from 1s to H/2 above 2s), scripts that over-weight runs of threshold-1, threshold, threshold+1 unhealthy results, runs of 30-70 H so that an instance leads several terms (re-acquires after its record lapses), occasional stops/restarts, connection monitoring with disconnect/reconnect/closed notifications, in a third of the plans isolated transient failures of 1-6 of the instance's first 25 refreshes; oracle: a reference consecutive-failure counter per term fed with the checker's own call log decides on which tick the health mechanism must demote (exactly at the threshold, never below, reset by a healthy result and by a new term), plus ctx deadline <= 100ms, no refresh on unhealthy ticks, OnDemote, FOLLOWER afterwards and re-election of a sole candidate within 600ms + latencies of the record's lapse. Non-trivial = a script with >= 1 unhealthy result reached a leader; distinct by plan hash.",
 		Gen: func(t *rapid.T) *Plan {
 			if rapid.IntRange(0, 6).Draw(t, "straggler") == 0 {
 				return GenStragglerPlan(t, "health")
@@ -104,9 +104,24 @@ var knobsTamper = Knobs{MinInst: 1, MaxInst: 4, LatFrac: 0.3, WatchDelayH: 1, Ta
 
 func TestC13(t *testing.T) {
 	RunCheck(t, CheckSpec{Prop: "C13",
-		Rule:   "1-4 instances (followers, a leader, takeover-enabled candidates) while an outside party writes values from the descriptor grammar of C04 (plus raw bytes, phantom payloads with priorities above/below/equal, empty and very large values) and deletes the key at generated times; latencies include 0; oracle: no crash / hang / spin / unbounded recursion (process-level, watchdog), store operations per object bounded by delivered events and ticks, every promotion directly follows the object's own successful Create or strictly-higher-priority takeover of a decodable record, a leader whose record is rewritten or deleted is demoted within H+2T+RTT. Non-trivial = an outside write that is not the canonical payload currently live, landing after some instance started; distinct by plan hash.",
-		Gen:    func(t *rapid.T) *Plan { return GenPlan(t, "tamper", knobsTamper) },
-		Oracle: OracleC13})
+		Rule: "1-4 instances (followers, a leader, takeover-enabled candidates) while an outside party writes values from the descriptor grammar of C04 (plus raw bytes, phantom payloads with priorities above/below/equal, empty and very large values) and deletes the key at generated times; latencies include 0; oracle: no crash / hang / spin / unbounded recursion (process-level, watchdog), store operations per object bounded by delivered events and ticks, every promotion directly follows the object's own successful Create or strictly-higher-priority takeover of a decodable record, a leader whose record is rewritten or deleted is demoted within H+2T+RTT; one plan in five is the shape 'candidates (with and without takeover) start while the key holds an outside party's record ({} / null / id-less / non-JSON / empty), which is deleted later': they must be back for that vacancy within the bound of C06 (no instance stops responding). Non-trivial = an outside write that is not the canonical payload currently live, landing after some instance started; distinct by plan hash.",
+		Gen: MixShapes(func(t *rapid.T) *Plan { return GenPlan(t, "tamper", knobsTamper) },
+			func(t *rapid.T) *Plan { return genVacancyPlanCause(t, "foreign-record") }),
+		Oracle: func(tr *Trace) Verdict {
+			v := OracleC13(tr)
+			if tr.Plan.Profile == "vacancy" {
+				// "or stops responding": candidates that found an outside party's record when they started are
+				// back for the vacancy once it is removed (the oracle of C06 on the plan shape of C06)
+				for _, x := range OracleC06(tr).Viols {
+					x.Sig = "C13 stops-responding after a foreign record: " + x.Sig
+					v.Viols = append(v.Viols, x)
+				}
+				v.Nontrivial = true
+				v.Classes = append(v.Classes, "foreign-record-then-vacancy")
+				sortViols(v.Viols)
+			}
+			return v
+		}})
 }
 
 func TestC17Rounds(t *testing.T) {
